@@ -9,7 +9,7 @@ import tempfile
 from contextlib import contextmanager
 
 from .core import hx
-from .gitobj_common import source_tokens, splice_token
+from .gitobj_common import NFC_UNSTABLE, source_tokens, splice_token
 
 NAME_ALPHA = [b"a", b"b", b".", b"-", b"0", b" ", b"\n", b"\x80", b"\xff", b"A", b"~", b"_", b"\xc3\xa9", b"B"]
 FILE_MODES = [0o600, 0o644, 0o700, 0o755, 0o610, 0o601, 0o654, 0o641, 0o711, 0o400,
@@ -29,7 +29,31 @@ def token_bytes(rng, base=b"", slash=False):
     return x[:255] or b"tok"
 
 
+def unicode_variant_bytes(rng):
+    """valid non-ASCII UTF-8 that Unicode normalisation would change: one of the NFC-unstable sequences as it is, or in its
+    NFC / NFD / NFKC / NFKD form (ext4 and tmpfs keep any bytes: for Linux - and for git - these are all different names)"""
+    import unicodedata
+    x = rng.choice(NFC_UNSTABLE)
+    form = rng.choice([None, None, "NFC", "NFD", "NFKC", "NFKD"])
+    return (unicodedata.normalize(form, x) if form else x).encode("utf-8")
+
+
+def nfc_twin(b):
+    """the NFC form of a name when it is another byte string (else None)"""
+    import unicodedata
+    try:
+        t = unicodedata.normalize("NFC", b.decode("utf-8")).encode("utf-8")
+    except UnicodeDecodeError:
+        return None
+    return t if t != b and t and b"/" not in t and b"\0" not in t else None
+
+
 def gen_name(rng, taken):
+    if rng.random() < 0.05:         # a name that is not in Unicode normal form C: alone, or around a usual name
+        u = unicode_variant_bytes(rng)
+        nm = rng.choice([u, u, u + rng.choice([b"a", b".c", b" x"]), rng.choice([b"a", b"dir", b"."]) + u])
+        if nm not in taken and len(nm) <= 255:
+            return nm
     if rng.random() < 0.1:          # the fuzzers' dictionary trick: a special case keyed on a literal of the code gets exercised
         nm = token_bytes(rng, rng.choice([b"", b"", b"a", b"dir", b"x y", b"\xff\xfe", b"n.c"]))
         if nm not in taken and nm not in (b".", b".."):
@@ -65,12 +89,19 @@ def gen_tree(rng, depth=0, budget=None, opts=None):
         budget[0] -= 1
         nm = gen_name(rng, taken)
         taken.add(nm)
+        tw = nfc_twin(nm)
+        if tw and tw not in taken and rng.random() < 0.6:
+            # the name AND its NFC twin side by side: two different entries for Linux and for git
+            taken.add(tw)
+            kids.append([tw.hex(), rng.choice([{"t": "R", "d": b"the NFC twin".hex(), "m": 0o644},
+                                               {"t": "D", "c": [[b"k".hex(), {"t": "R", "d": b"twin".hex(), "m": 0o755}]]}])])
         r = rng.random()
         if r < 0.3 and depth < 5:
             kids.append([nm.hex(), gen_tree(rng, depth + 1, budget, opts)])
         elif r < 0.42:
             kids.append([nm.hex(), {"t": "L", "x": rng.choice([b"a", b"../x", b"/etc/passwd", b"dangling", nm, b".", b"sub/dir",
                                                                  token_bytes(rng, rng.choice([b"", b"a", b"../x"]), slash=True),
+                                                                 unicode_variant_bytes(rng), b"../" + unicode_variant_bytes(rng),
                                                                  bytes(rng.randrange(1, 256) for _ in range(rng.randrange(1, 9)))]).hex()}])
         elif r < 0.47 and not opts.get("no_special"):
             kids.append([nm.hex(), {"t": "S", "m": rng.choice(FILE_MODES), "k": rng.choice(SPECIAL_KINDS)}])
